@@ -19,7 +19,7 @@ def run(ctx):
                 seen.add(key)
                 s = dict(s, bind={}, norm=False)
                 out.append(s)
-        scen = out[ctx.seed % 2::2] if ctx.quick else out
+        scen = out            # quick = thorough universe here (a stride once dropped the thin shapes: no subsampling)
     traces = ctx.drive("geoattr", scen, timeout=3000)
     ctx.validate("Trace_C10", traces, timeout=3000)
     ctx.rule = RULE
